@@ -6,13 +6,15 @@ From Exmex.Gen Require Import Tables.
 Open Scope nat_scope.
 
 (* `_partial` (structural half).  The comparison operators keep their value as "derivative" (conditions are left
-   untouched) and `if` / `else` are differentiated per operand (branch-wise); all of these names are operators of the
-   value table as regenerated on this run.  The analytic half (the derivative evaluates to the derivative of the
+   untouched), `else` is differentiated per operand (branch-wise) and `if` differentiates its left operand under the VALUE
+   of its condition (after the repair of F14; before it the condition was replaced by its own "derivative", which for a
+   condition that is a constant -- a variable-free comparison folded by the parser -- or a boolean variable is zero, so the
+   derivative always took the else-branch); all of these names are operators of the value table as regenerated on this run.  The analytic half (the derivative evaluates to the derivative of the
    selected branch away from branch boundaries) is covered by the correspondence on the term algebra and the numeric
    branch-wise oracle. *)
 Theorem C18_condition_and_branch_rules_partial :
   map find_rule [n_gt; n_lt; n_ge; n_le; n_eq; n_ne] = repeat (Some (Some BDerIsVal, None)) 6 /\
-  map find_rule [n_if; n_else] = repeat (Some (Some BPerOperand, None)) 2 /\
+  map find_rule [n_if; n_else] = [Some (Some BCond, None); Some (Some BPerOperand, None)] /\
   forallb (fun name => existsb (fun o => str_eqb (repr o) name) val_table) [n_gt; n_lt; n_ge; n_le; n_eq; n_ne; n_if; n_else] = true.
 Proof. vm_compute. repeat split; reflexivity. Qed.
 
@@ -22,7 +24,23 @@ Theorem C18_rule_semantics_partial :
   apply_brule C DC tb BDerIsVal name f g =
     (do v <- operate_bin C tb (vd_val f) (vd_val g) name; do d <- operate_bin C tb (vd_val f) (vd_val g) name; Ok {| vd_val := v; vd_der := d |}) /\
   apply_brule C DC tb BPerOperand name f g =
-    (do v <- operate_bin C tb (vd_val f) (vd_val g) name; do d <- operate_bin C tb (vd_der f) (vd_der g) name; Ok {| vd_val := v; vd_der := d |}).
-Proof. intros; split; reflexivity. Qed.
+    (do v <- operate_bin C tb (vd_val f) (vd_val g) name; do d <- operate_bin C tb (vd_der f) (vd_der g) name; Ok {| vd_val := v; vd_der := d |}) /\
+  apply_brule C DC tb BCond name f g =
+    (do v <- operate_bin C tb (vd_val f) (vd_val g) name; do d <- operate_bin C tb (vd_der f) (vd_val g) name; Ok {| vd_val := v; vd_der := d |}).
+Proof. intros; repeat split; reflexivity. Qed.
+
+(* the condition of the derivative is the condition of the value: whatever the condition is (a comparison, a constant,
+   a boolean variable), the `if` of the derivative is applied to the same right operand as the `if` of the value *)
+Theorem C18_derivative_keeps_the_condition :
+  forall (D : Type) (C : carrier D) (DC : dcarrier D) (tb : optable) (f g r : valder (D:=D)),
+  apply_brule C DC tb BCond n_if f g = Ok r ->
+  operate_bin C tb (vd_val f) (vd_val g) n_if = Ok (vd_val r) /\ operate_bin C tb (vd_der f) (vd_val g) n_if = Ok (vd_der r).
+Proof.
+  intros D C DC tb f g r H. cbn [apply_brule] in H.
+  destruct (operate_bin C tb (vd_val f) (vd_val g) n_if) as [v| |]; cbn [bind] in H; try discriminate.
+  destruct (operate_bin C tb (vd_der f) (vd_val g) n_if) as [d| |]; cbn [bind] in H; try discriminate.
+  inversion H; subst. split; reflexivity.
+Qed.
 
 Print Assumptions C18_condition_and_branch_rules_partial.
+Print Assumptions C18_derivative_keeps_the_condition.
